@@ -105,7 +105,7 @@ def rule_cwd_taint(ctx, r):
                                 "the module is imported: the directory in effect at import time, not the one gwf is invoked from, decides which workflow is found",
                                 loc(node, f.module))
                     continue
-                r.check(f.key in allowed, f"{f.module.relpath}::{f.qual}::{canon}", allowed.get(f.key, ""),
+                r.check(f.key in allowed or ctx.resolver.owned_by(f, list(allowed)), f"{f.module.relpath}::{f.qual}::{canon}", allowed.get(f.key, "helper called only by the workflow search / init fallback"),
                         f"{f.qual} reads the invoking directory ({canon}): paths, graph or state location would depend on where gwf is started", loc(node, f.module))
             if canon in ("os.path.abspath", "os.path.relpath") and isinstance(node, ast.Call) and node.args:
                 from ..astutil import single_assignments
